@@ -21,7 +21,9 @@ def digest(v, problems=None, path="top"):
         attrs = {}
         names = list(v.getSectionAttributes())
         public = sorted(k for k in v.__dict__ if not k.startswith("_"))
-        if problems is not None and sorted(names) != public:
+        # names with a leading underscore are legal attribute names, but the object keeps its own
+        # book-keeping under such names too: only the public ones can be cross-checked here
+        if problems is not None and sorted(n for n in names if not n.startswith("_")) != public:
             problems.append("%s: getSectionAttributes()=%r but instance attributes=%r"
                             % (path, sorted(names), public))
         for a in names:
